@@ -9,10 +9,10 @@ git apply $DIFF || { echo "APPLY-FAILED"; exit 2; }
 ( cd luahelper-lsp && go build ./... ) || { echo "BUILD-FAILED"; git checkout -q -- .; exit 1; }
 ( cd luahelper-lsp && go test -vet=off -count=1 ./... >/tmp/vm_tests.txt 2>&1 ) && echo "SUITE-OK-WITH-CHANGE" || { echo "SUITE-FAILS-WITH-CHANGE"; tail -5 /tmp/vm_tests.txt; }
 case "$DEMO" in
- *_test.go) cp $DEMO luahelper-lsp/langserver/zz_demo_test.go; RUN=$(grep -o 'func Test[A-Za-z0-9_]*' $DEMO | head -1 | sed 's/func //');
-   ( cd luahelper-lsp && go test -vet=off -count=1 -run "^$RUN\$" ./langserver >/tmp/vm_demo1.txt 2>&1 ) && echo "DEMO-PASSES-WITH-CHANGE(bad)" || echo "DEMO-FAILS-WITH-CHANGE"
+ *_test.go) cp $DEMO luahelper-lsp/langserver/zz_demo_test.go; RUN=$(grep -o 'func Test[A-Za-z0-9_]*' $DEMO | sed 's/func //' | paste -sd'|');
+   ( cd luahelper-lsp && go test -vet=off -count=1 -run "^($RUN)\$" ./langserver >/tmp/vm_demo1.txt 2>&1 ) && echo "DEMO-PASSES-WITH-CHANGE(bad)" || echo "DEMO-FAILS-WITH-CHANGE"
    git checkout -q -- .
-   ( cd luahelper-lsp && go test -vet=off -count=1 -run "^$RUN\$" ./langserver >/tmp/vm_demo2.txt 2>&1 ) && echo "DEMO-PASSES-WITHOUT-CHANGE" || { echo "DEMO-FAILS-WITHOUT-CHANGE(bad)"; tail -5 /tmp/vm_demo2.txt; }
+   ( cd luahelper-lsp && go test -vet=off -count=1 -run "^($RUN)\$" ./langserver >/tmp/vm_demo2.txt 2>&1 ) && echo "DEMO-PASSES-WITHOUT-CHANGE" || { echo "DEMO-FAILS-WITHOUT-CHANGE(bad)"; tail -5 /tmp/vm_demo2.txt; }
    ;;
  *) echo "non-test demo: run manually";;
 esac
